@@ -20,6 +20,13 @@ use std::sync::atomic::{AtomicU64, Ordering};
 
 #[derive(Debug, Clone, Serialize, Deserialize)]
 pub struct Case {
+    /// memory layout of the array handed to the array entry points: 0 standard (C order),
+    /// 1 Fortran order, 2 a permuted-axes view of a (dim, obs, chain) array, 3 first axis inverted
+    #[serde(default)]
+    pub layout: u8,
+    /// write a larger file to the same path first (exports over an existing file)
+    #[serde(default)]
+    pub prefill: bool,
     /// 0 csv, 1 arrow, 2 parquet
     pub fmt: u8,
     /// 0 array entry point, 1 tensor entry point
@@ -44,8 +51,10 @@ fn strategy() -> BoxedStrategy<Case> {
         any::<u64>(),
         prop_oneof![Just(0.0f64), 0.05f64..0.6],
         prop_oneof![12 => Just(0u8), 1 => Just(1u8), 1 => Just(2u8), 2 => Just(3u8)],
+        prop_oneof![3 => Just(0u8), 1 => Just(1u8), 1 => Just(2u8), 1 => Just(3u8)],
+        proptest::bool::weighted(0.25),
     )
-        .prop_map(|(fmt, tensor, etype, (a, b, c), fill_seed, special_rate, path_kind)| {
+        .prop_map(|(fmt, tensor, etype, (a, b, c), fill_seed, special_rate, path_kind, layout, prefill)| {
             let tensor = tensor && fmt != 1; // there is no Arrow tensor entry point
             let etype = if tensor {
                 etype % 2
@@ -55,6 +64,8 @@ fn strategy() -> BoxedStrategy<Case> {
                 etype
             };
             Case {
+                layout,
+                prefill,
                 fmt,
                 tensor,
                 etype,
@@ -274,8 +285,27 @@ fn cell_matches(kind: &str, stored: f64, cell: &Cell) -> bool {
     }
 }
 
+thread_local! {
+    static LAYOUT: std::cell::Cell<u8> = const { std::cell::Cell::new(0) };
+}
+
+/// the array with logical content `vals` (C-order enumeration) in the requested memory layout
 fn arr<T: Clone>(shape: [usize; 3], vals: &[f64], conv: impl Fn(f64) -> T) -> Array3<T> {
-    Array3::from_shape_vec((shape[0], shape[1], shape[2]), vals.iter().map(|v| conv(*v)).collect()).unwrap()
+    use ndarray::ShapeBuilder;
+    let std: Array3<T> = Array3::from_shape_vec((shape[0], shape[1], shape[2]), vals.iter().map(|v| conv(*v)).collect()).unwrap();
+    match LAYOUT.with(|l| l.get()) {
+        1 => Array3::from_shape_fn((shape[0], shape[1], shape[2]).f(), |(i, j, k)| std[[i, j, k]].clone()),
+        2 => {
+            let t: Array3<T> = Array3::from_shape_fn((shape[2], shape[1], shape[0]), |(k, j, i)| std[[i, j, k]].clone());
+            t.permuted_axes([2, 1, 0])
+        }
+        3 => {
+            let mut r: Array3<T> = Array3::from_shape_fn((shape[0], shape[1], shape[2]), |(i, j, k)| std[[shape[0] - 1 - i, j, k]].clone());
+            r.invert_axis(ndarray::Axis(0));
+            r
+        }
+        _ => std,
+    }
 }
 
 fn do_save(case: &Case, vals: &[f64], path: &str) -> Result<Result<(), String>, String> {
@@ -338,7 +368,17 @@ pub fn check(case: &Case, cov: &mut Cov) -> CheckResult {
             return Ok(());
         }
     }
+    LAYOUT.with(|l| l.set(if case.tensor { 0 } else { case.layout }));
+    if case.prefill && writable {
+        // an older, larger export already sits at this path
+        let mut big = case.clone();
+        big.shape = [s[0] + 2, s[1] + 3, s[2]];
+        big.prefill = false;
+        let bv = values(&big, kind);
+        let _ = do_save(&big, &bv, &path_s);
+    }
     let res = do_save(case, &vals, &path_s);
+    LAYOUT.with(|l| l.set(0));
     let cleanup = |p: &PathBuf| {
         if writable {
             let _ = std::fs::remove_file(p);
@@ -422,6 +462,12 @@ pub fn check(case: &Case, cov: &mut Cov) -> CheckResult {
     cov.class(kind);
     if s.iter().any(|x| *x == 0) {
         cov.class("zero-extent");
+    }
+    if !case.tensor && case.layout != 0 {
+        cov.class(["", "fortran-order", "permuted-axes", "inverted-axis"][case.layout as usize]);
+    }
+    if case.prefill {
+        cov.class("over-existing-larger-file");
     }
     let has_special = case.special_rate.0 > 0.0;
     if (s[0] >= 2 && s[1] >= 2 && s[2] >= 2) || (has_special && rows_expected * n_dims > 0) {
